@@ -52,6 +52,9 @@ func MustParse(src string, funcs map[string]any) *parser.Program {
 	return p
 }
 
+// ExecHook, if set, replaces interp.ExecProgram inside Exec (e.g. to go through ExecuteContext).
+var ExecHook func(prog *parser.Program, cfg *interp.Config) (int, error)
+
 // Exec runs prog with cfg on a fresh interpreter. Output/Error writers are set
 // if nil in cfg.
 func Exec(prog *parser.Program, cfg *interp.Config) (res Result) {
@@ -75,7 +78,11 @@ func Exec(prog *parser.Program, cfg *interp.Config) (res Result) {
 		res.Out = out.String()
 		res.Stderr = errb.String()
 	}()
-	res.Status, res.Err = interp.ExecProgram(prog, cfg)
+	if ExecHook != nil {
+		res.Status, res.Err = ExecHook(prog, cfg)
+	} else {
+		res.Status, res.Err = interp.ExecProgram(prog, cfg)
+	}
 	return
 }
 
